@@ -268,7 +268,27 @@ def cache_key_obligation(run, it):
 
 
 
+def _numpy_for_states(it):
+    """numpy as far as states.py may use it on state variables: the universe's variable values stand for arrays; the aliasing
+    predicates are conservative tests (bounds / stride based) that may answer True for arrays sharing no element -- e.g. interleaved
+    views of one buffer -- so their answer is explored both ways"""
+    from ..pyvc import Namespace, TypeTag
+
+    def is_arr(o):
+        return isinstance(o, tuple) and len(o) == 2 and o[0] in ("pos", "mom") and isinstance(o[1], int)
+    def _alias(ex, a, b, *r, **k):
+        if a is b:
+            return True
+        if "alias-answer" not in ex.ctx.ghost:  # one decision per explored path (the same answer for every pair): 2 paths, not 2^calls
+            ex.ctx.ghost["alias-answer"] = bool(ex.ctx.choose(2, "aliasing-predicate-answers-True"))
+        return ex.ctx.ghost["alias-answer"]
+    alias = Native(_alias, "np.may_share_memory / shares_memory")
+    if "numpy" not in it.ext_modules:
+        it.ext_modules["numpy"] = Namespace("numpy", ndarray=TypeTag("ndarray", is_arr), may_share_memory=alias, shares_memory=alias)
+
+
 def protocol(run, it, prop):
+    _numpy_for_states(it)
     run.function("mici.states.cache_in_state")
     run.function("mici.states.cache_in_state_with_aux")
     for m in ("__init__", "__getattr__", "__setattr__", "copy", "__getstate__", "__setstate__"):
